@@ -266,3 +266,51 @@ def region_name(ev, conds) -> str:
         txt = f"|{lhs}| < {bound}" if kind == "abs<" else f"{lhs} < {bound}"
         out.append(txt if b else f"not({txt})")
     return " and ".join(out)
+
+
+def foreign_saturation(ev):
+    """Saturating primitives (clip/minimum/maximum) met during evaluation other than the
+    clip inside save_exp (which is the documented overflow guard)."""
+    out = []
+    for site in ev.atoms.clip_sites:
+        kind, _x, stack, node = site
+        if stack and stack[-1] == "save_exp":
+            continue
+        out.append((kind, stack, node))
+    return out
+
+
+def subst_var(ev, r: Rat, var: str, val: Rat) -> Rat:
+    """Substitute a free variable by an affine polynomial value, also inside exp[var] atoms."""
+    from sa.algebra import Poly
+
+    if not val.is_polynomial():
+        raise Und("substituted value is not polynomial")
+
+    def exp_of(q):
+        out = ONE
+        for mono, c in val.n.t.items():
+            c = c / val.d.const_value()
+            nm = "exp[" + ("*".join(x if e == 1 else f"{x}^{e}" for x, e in mono) or "1") + "]"
+            out = out * Rat.atom(nm, c * q)
+        return out
+
+    def sp(p: Poly) -> Rat:
+        out = ZERO
+        for mono, c in p.t.items():
+            term = Rat.const(c)
+            for a, e in mono:
+                if a == var:
+                    if e.denominator != 1:
+                        raise Und("fractional power")
+                    term = term * val.powi(int(e))
+                elif a == f"exp[{var}]":
+                    term = term * exp_of(e)
+                elif a.startswith("exp[") and var in a[4:-1].replace("*", " ").replace("^", " ").split():
+                    raise Und(f"mixed exponential atom {a}")
+                else:
+                    term = term * Rat.atom(a, e)
+            out = out + term
+        return out
+
+    return sp(r.n) / sp(r.d)
